@@ -235,6 +235,9 @@ func newNode() *topicNode {
 
 func (node *topicNode) addClients(ans map[string]byte) {
 	for client, qos := range node.clients {
-		ans[client] = qos
+		// a client may match through several filters: keep the highest QoS (MQTT 3.1.1, 3.3.5)
+		if prev, ok := ans[client]; !ok || qos > prev {
+			ans[client] = qos
+		}
 	}
 }
